@@ -84,6 +84,16 @@ def lookup(mapping, code):
     return value
 
 
+def decode_date(value):
+    # strictly `yymmdd`: `dateutil` would reorder the fields of an invalid date
+    # until they form a valid one (`160191` -> 1991-01-16)
+    parsed = dateutil.parser.parse(value, yearfirst=True, dayfirst=False)
+    if parsed.strftime("%y%m%d") != value:
+        raise ValueError(f"invalid date: {value!r}")
+
+    return parsed
+
+
 translations = {
     "observation_mode": curry(lookup, observation_modes),
     "observation_direction": curry(lookup, observation_directions),
@@ -91,7 +101,7 @@ translations = {
     "processing_option": curry(lookup, processing_options),
     "map_projection": curry(lookup, map_projections),
     "orbit_direction": curry(lookup, orbit_directions),
-    "date": curry(dateutil.parser.parse, yearfirst=True, dayfirst=False),
+    "date": decode_date,
     "mission_name": passthrough,
     "orbit_accumulation": passthrough,
     "scene_frame": passthrough,
